@@ -11,7 +11,7 @@ import (
 func init() {
 	register(stream{
 		name: "policy",
-		rule: "every policy of one statement of depth ≤ 2 built from 5 comparison operators × 5 selectors × 4 literals, like × 2 selectors × 3 patterns, not, binary and/or (both operand orders), all/any over a list selector — each against 16 data trees; every ordered pair of 28 boundary numbers (floats incl. ±MaxFloat64, denormals, NaN, ±Inf, ±0; ints up to the int64 limits) under each of the five comparison operators (maps with present/missing/optional/null fields, ints, floats incl. NaN/±Inf/−0, strings, lists of maps, empty collections, boundary integers ±(2^53−1)), together with the negated statement (so that the four-valued result is observable through Match/PartialMatch); plus grammar-random policies of depth ≤ 4 with 1–3 statements, each also in a randomly permuted form, against random trees. Added later: every policy object is also evaluated after it was used on 17 other data values, as an equal object decoded from its IPLD form that sees the other data first, and as decoded from IPLD (identical matching); overlapping slices of one policy (p[:n-1], p[1:]) answer the same before and after p is matched and p prints the same; selectors with a failing required segment before an optional last one, optional iterators on non-lists, explicit nulls under optional selectors; integer neighbours beyond 2^53. like patterns without a wildcard but with escapes, on strings that hold backslashes. Non-trivial = the statement has a connective/quantifier/negation or a selector that does not resolve. Distinct = distinct protocol lines.",
+		rule: "every policy of one statement of depth ≤ 2 built from 5 comparison operators × 5 selectors × 4 literals, like × 2 selectors × 3 patterns, not, binary and/or (both operand orders), all/any over a list selector — each against 16 data trees; every ordered pair of 28 boundary numbers (floats incl. ±MaxFloat64, denormals, NaN, ±Inf, ±0; ints up to the int64 limits) under each of the five comparison operators (maps with present/missing/optional/null fields, ints, floats incl. NaN/±Inf/−0, strings, lists of maps, empty collections, boundary integers ±(2^53−1)), together with the negated statement (so that the four-valued result is observable through Match/PartialMatch); plus grammar-random policies of depth ≤ 4 with 1–3 statements, each also in a randomly permuted form, against random trees. Added later: every policy object is also evaluated after it was used on 17 other data values, as an equal object decoded from its IPLD form that sees the other data first, and as decoded from IPLD (identical matching); overlapping slices of one policy (p[:n-1], p[1:]) answer the same before and after p is matched and p prints the same; selectors with a failing required segment before an optional last one, optional iterators on non-lists, explicit nulls under optional selectors; integer neighbours beyond 2^53. like patterns without a wildcard but with escapes, on strings that hold backslashes; all/any over lists whose elements have the same content under different kinds (string/bytes, 1/1.0, true/1) or repeat, in every order, with element statements that tell the kinds apart; one text cut into (like pattern, string) at two places, matched one right after the other in both orders. Non-trivial = the statement has a connective/quantifier/negation or a selector that does not resolve. Distinct = distinct protocol lines.",
 		run:  runPolicyStream,
 		eval: evalPolicy,
 	})
@@ -356,6 +356,60 @@ func runPolicyStream(c *ctx) error {
 			one("E("+hxs(sel)+","+e+")", "policy.any", true)
 		}
 	}
+	// quantifiers over lists whose elements have the SAME content under different kinds (string / bytes, 1 / 1.0, true / 1) or
+	// simply repeat, in every order, with element statements that tell the kinds apart: every element is examined, whatever
+	// came before it
+	{
+		elems := [][]string{{"s616263", "b616263"}, {"i1", "d3ff0000000000000"}, {"T", "i1"}, {"s31", "i1"}, {"s", "b"}, {"n", "s"}, {"i1", "i1", "i2"},
+			{"s616263", "s616263", "b616263"}, {"b616263", "b616263", "s616263"}, {"m(61:i1)", "m(61:i1)", "m(61:i2)"}, {"l(i1)", "l(i1)", "l(d3ff0000000000000)"}}
+		inner := []string{"k(" + hxs(".") + "," + hxs("a*") + ")", "ceq(" + hxs(".") + ",b616263)", "ceq(" + hxs(".") + ",s616263)", "ceq(" + hxs(".") + ",i1)",
+			"ceq(" + hxs(".") + ",d3ff0000000000000)", "cge(" + hxs(".") + ",i1)", "cle(" + hxs(".") + ",d3ff0000000000000)", "ceq(" + hxs(".") + ",T)", "ceq(" + hxs(".") + ",s)",
+			"ceq(" + hxs(".a") + ",i1)", "ceq(" + hxs(".[0]") + ",i1)", "!(ceq(" + hxs(".") + ",s616263))"}
+		for _, es := range elems {
+			var perms [][]string
+			permute(es, func(p []string) { perms = append(perms, append([]string(nil), p...)) })
+			for _, pm := range perms {
+				d := "l(" + strings.Join(pm, ",") + ")"
+				for _, in := range inner {
+					for _, q := range []string{"A", "E"} {
+						c.emitG("pol.match P("+q+"("+hxs(".")+","+in+")) L "+d, "policy.quantifier-mixed", func(string) bool { return true },
+							func(g string) []string { return []string{"quantifier-mixed:" + strings.ReplaceAll(g, " ", "")} })
+					}
+				}
+			}
+		}
+	}
+	// one text cut into (pattern, string) at two different places, the two `like` statements evaluated one right after the
+	// other, in both orders (over different letters): Match is a function of (policy, data), not of what was matched before
+	{
+		var words []string
+		allStrings("cd*\\", 4, func(s string) { words = append(words, s) })
+		one := func(p, str string) {
+			tb := 0
+			for tb < len(p) && p[len(p)-1-tb] == '\\' {
+				tb++
+			}
+			if tb%2 == 1 {
+				return // a pattern ending in a lone backslash is refused by the constructor
+			}
+			c.emitG("pol.match P(k("+hxs(".")+","+hxs(p)+")) L s"+hxsRaw(str), "policy.like-history", func(string) bool { return true },
+				func(g string) []string { return []string{"like-history:" + strings.ReplaceAll(g, " ", "")} })
+		}
+		for _, w := range words {
+			if !strings.Contains(w, "*") {
+				continue
+			}
+			v := strings.NewReplacer("c", "e", "d", "f").Replace(w)
+			for i := 0; i <= len(w); i++ {
+				for j := i + 1; j <= len(w); j++ {
+					one(w[:i], w[i:])
+					one(w[:j], w[j:])
+					one(v[:j], v[j:])
+					one(v[:i], v[i:])
+				}
+			}
+		}
+	}
 	// ordering and equality on boundary numbers: every ordered pair of the set, every operator,
 	// same-kind and cross-kind
 	for _, a := range polNumbers {
@@ -479,4 +533,25 @@ func randPolData(c *ctx) string {
 		}
 	}
 	return "m(" + strings.Join(parts, ",") + ")"
+}
+
+// permute calls f with every distinct ordering of xs
+func permute(xs []string, f func([]string)) {
+	seen := map[string]bool{}
+	var rec func(cur []string, rest []string)
+	rec = func(cur []string, rest []string) {
+		if len(rest) == 0 {
+			k := strings.Join(cur, ",")
+			if !seen[k] {
+				seen[k] = true
+				f(cur)
+			}
+			return
+		}
+		for i := range rest {
+			nr := append(append([]string(nil), rest[:i]...), rest[i+1:]...)
+			rec(append(append([]string(nil), cur...), rest[i]), nr)
+		}
+	}
+	rec(nil, xs)
 }
